@@ -10,32 +10,47 @@
 //!
 //! Oracles (after each `Stabilise` with a live observer; `world.rs::judge`):
 //!   C16.value                    observed output == per-entry application on the current input
-//!   C16.panic                    any panic in any action
+//!   C16.panic                    any panic in any action (reported when C16 is armed; a run
+//!                                armed for C17 only counts `history_cut_short_by_panic`)
 //!   C17.builder_only_new_keys    F invoked only for keys newly present w.r.t. the operator's
 //!                                previous input (= input at the last observed stabilise), once
 //!   C17.unchanged_key_recomputed a closure created for key k ran although k's entry equals the
 //!                                operator's previous input and the outer variable equals its
-//!                                value at the last observed stabilise
+//!                                value at the last observed stabilise; or (`fn_eq` programs)
+//!                                the custom cutoff was consulted with equal values, i.e. one of
+//!                                the library's per-key input nodes recomputed without a change
 //! Deliberate slack: closures of keys that are being removed are not judged; nodes shared by
 //! all keys (family `shared`, the `other` node of `bind_existing`) are not judged for C17;
 //! "F must be called for every new key" is not demanded (C16.value covers its effect);
 //! only equality-like cutoffs are used (`Never`, `Fn(==)`), so the definition of C16 applies
-//! unchanged to the `_cutoff` operators.
+//! unchanged to the `_cutoff` operators. No slack was needed for re-observation: the engine
+//! does not re-run per-key closures of unchanged keys after an unobserved gap.
+//!
+//! Pruning: `canon()` = engine dump + model (current input, operator's previous input, outer,
+//! outer at last observed round, observer flag, gap flag) + which live node belongs to which
+//! key. The operator's hidden closure state is determined by that at quiescent points:
+//! `prev_map` = value of the input variable's node, `acc` = value of the result node,
+//! `prev_nodes` = the key table + the result node's edges. Checked with `congruence=4` at depth
+//! 7 (no MACHINERY line) and against `noprune` at depth 5 (same set of cause signatures).
 //!
 //! Family names (`hx dev pkmaps <family> <depth>`), `-k2` = 2 keys (9 maps), `-k3` = 3 keys
-//! (27 maps). Each family has one program (= unit) per (operator x cutoff x map type):
-//! 12 per user-function variant (6 for `identity`, which has no filter form).
+//! (27 maps; `-k1`..`-k4` are accepted). Each family has one program (= unit) per
+//! (map type x operator x cutoff variant): 12 per user-function variant (6 for `identity`,
+//! which has no filter form).
 //!
-//!   family                variants                         units  quick  thorough
-//!   c16/pure-k2           pure                               12     8       12
-//!   c16/identity-k2       identity                            6     8       12
-//!   c16/map2-k2           map2                               12     6        8
-//!   c16/bind-k2           bind_existing, bind_fresh          24     6        8
-//!   c16/ignore-k2         ignore_const, ignore_outer         24     6        8
-//!   c16/shared-k2         shared_outer, shared_const         24     6        8
-//!   c16/all-k2            all of the above                  102     6        8
-//!   c16/<x>-k3            same with 3 keys                  same    4        6
-//! (depths are with pruning; see the report of the build phase for measured sizes)
+//!   family            variants                      units   quick depth   thorough depth
+//!   c16/pure-k2       pure                            12        6 (8 ok)       8
+//!   c16/identity-k2   identity (`|_k, v| v`)           6        6 (8 ok)       8
+//!   c16/map2-k2       map2                            12        6              8
+//!   c16/bind-k2       bind_existing, bind_fresh       24        6              8
+//!   c16/ignore-k2     ignore_const, ignore_outer      24        6              8
+//!   c16/shared-k2     shared_outer, shared_const      24        6              8
+//!   c16/all-k2        all of the above               102        6              8
+//!   c16/<x>-k3        the same with 3 keys           same       4              6
+//! Recommended: quick = all-k2 depth 6 rel + all-k2 depth 5 dbg + all-k3 depth 4 rel
+//! (about 340 core-seconds); thorough = all-k2 depth 8 rel + all-k2 depth 7 dbg + all-k3
+//! depth 6 rel (about 7800 core-seconds, c16/bind-k3 alone 2700). Every known defect shows at
+//! depth 4.
 //!
 //! Entry points used by `plan.rs` (keep these four signatures).
 
